@@ -5,6 +5,7 @@ import (
 	"bytes"
 	"encoding/hex"
 	"fmt"
+	"strings"
 	"testing"
 
 	"github.com/jcmturner/gokrb5/v8/crypto"
@@ -319,6 +320,13 @@ func TestProp(t *testing.T) {
 		judge("enum", c, nil)
 		c.Tamper = "key-inplace"
 		judge("enum", c, nil)
+		// the right key with zero octets behind it: another octet string, hence another key (HMAC pads short keys with
+		// zeros, so an implementation that does not look at the key's length cannot tell them apart)
+		for _, z := range []int{1, 2, 16, 48} {
+			c = base
+			c.Tamper, c.Extra = "key", base.Key+strings.Repeat("00", z)
+			judge("enum", c, nil)
+		}
 		c.Extra = hex.EncodeToString(make([]byte, ref.KeyLen(j.et)))
 		if j.et != ref.DES3 {
 			judge("enum", c, nil)
